@@ -345,6 +345,10 @@ def run_group(g, reach=False, keep=False):
                     os.remove(os.path.join(d, fn))
                 except OSError:
                     pass
+            if r.status == "pass":
+                # disk space: a passing group leaves nothing behind (the JSON result of one group is several MB and the
+                # thorough tiers run thousands of groups); failing / undecided groups keep log.txt and result.json
+                shutil.rmtree(d, ignore_errors=True)
 
 
 def trace_inputs(trace, maxn=400):
